@@ -122,7 +122,10 @@ class UMkKeys(_MkKeysBase):
     def post(self, ex, st0, st, outcome, b):
         key = st.ghost.get('c:key')
         if key is None:
-            ex.oblige(st, 'key_func_called', z3.BoolVal(False))
+            # only possible when the key function itself raised
+            ok = outcome[0] == 'exc' and outcome[1].cls == 'AttributeError' and 'key function' in outcome[1].origin
+            ex.oblige(st, 'key_func_called', z3.BoolVal(ok))
+            self.unchanged(ex, st0, st, 'exception_no_change')
             return
         skip = z3.And(z3.Not(self.flag.e), Val.is_none(key))
         had = self.has(st0, self.slf, key)
